@@ -5,6 +5,8 @@ mod common;
 mod rng;
 mod c11;
 mod c06;
+mod fsfam;
+mod c08;
 
 use std::io::{BufWriter, Write};
 
@@ -25,6 +27,7 @@ fn main() {
             match prop {
                 "C11" => c11::gen(tier, seed, &mut out),
                 "C06" => c06::gen(tier, seed, &mut out),
+                "C08" => c08::gen(tier, seed, &mut out),
                 _ => {
                     eprintln!("unknown property {}", prop);
                     std::process::exit(2);
@@ -63,6 +66,13 @@ fn replay_one(toks: &[&str]) -> String {
             let scratch = common::scratch_root().join("c06r");
             std::fs::create_dir_all(&scratch).unwrap();
             let r = c06::observe(&toks[1..], &scratch);
+            common::rm_rf(&scratch);
+            r
+        }
+        "C08" => {
+            let scratch = common::scratch_root().join("c08r");
+            std::fs::create_dir_all(&scratch).unwrap();
+            let r = c08::observe(&toks[1..], &scratch);
             common::rm_rf(&scratch);
             r
         }
